@@ -806,6 +806,11 @@ impl Net {
                 }
             }
             "unblock" => self.proxy.block(false),
+            "throttle" => {
+                let b = s["bytes"].as_u64().unwrap_or(0);
+                let _ = self.proxy.throttle(b);
+                let _ = self.rproxy.throttle(b);
+            }
             "freeze" => {
                 if !self.proxy.freeze(s["on"].as_bool().unwrap_or(true)) {
                     self.notes.push("freeze not available on this transport".into());
@@ -889,6 +894,13 @@ impl Net {
             "tiny" => 1,
             "zero" => 0,
             "mid" => (HDR + max) / 2,
+            // around yamux's split_send_size (16 KiB) and well above it: frames that need several writes
+            "1k" => 1024,
+            "16k-1" => 16 * 1024 - 1,
+            "16k" => 16 * 1024,
+            "16k+1" => 16 * 1024 + 1,
+            "40k" => 40 * 1024,
+            "100k" => 100 * 1024,
             _ => HDR,
         };
         let seq = if open && len >= HDR {
